@@ -54,6 +54,9 @@ mod entry;
 mod structs;
 mod wgsl;
 
+#[cfg(wgsl_to_wgpu_verif)]
+pub mod verif_hooks;
+
 pub use naga::valid::Capabilities as WgslCapabilities;
 
 /// Errors while generating Rust source for a WGSL shader module.
